@@ -76,17 +76,28 @@ class c14_dt_lemma:
     cases = {k: _dt_case(mk) for k, mk in zone_cases().items()}
 
 
+def _time_case(aware):
+    class case:
+        def args(F):
+            from contracts.dt import fresh_fixed
+
+            tz, zc = fresh_fixed(F, "tz") if aware else (None, True)
+            o, c = stdlib.fresh_time(F, Time, "t", tzinfo=tz)
+            return dict(t=o, protocol=F.int("protocol")), [c, zc]
+
+        def result(F, **k):
+            raise NotImplementedError
+
+        def ensures(result, t, protocol):
+            return [("same_fields", And(*[eq(result.f[n], t.f[n]) for n in ("hour", "minute", "second", "microsecond")])), ("class", result.cls is t.cls),
+                    ("tzinfo_kept", zones.same_zone(result.f.get("tzinfo"), t.f.get("tzinfo")))]
+
+    return case
+
+
 @contract("props.C14.c14_time", props=["C14"])
 class c14_time_lemma:
-    def args(F):
-        o, c = stdlib.fresh_time(F, Time, "t")
-        return dict(t=o, protocol=F.int("protocol")), [c]
-
-    def result(F, **k):
-        raise NotImplementedError
-
-    def ensures(result, t, protocol):
-        return [("same_fields", And(*[eq(result.f[n], t.f[n]) for n in ("hour", "minute", "second", "microsecond")])), ("class", result.cls is t.cls)]
+    cases = {"naive": _time_case(False), "aware": _time_case(True)}
 
 
 _SHADOW = ("us", "_years", "_months", "_weeks", "_remaining_days", "_days", "_seconds", "_microseconds")
